@@ -542,7 +542,7 @@ def gen_trees(ctx):
                 for b in vals:
                     if op == '<<' and b > 4096:
                         continue
-                    if len(vals) > 12 and rng.random() < 0.62:
+                    if len(vals) > 12 and rng.random() < 0.8:
                         continue
                     out.append(('bin', ('binop', ('const', a, name), op, ('const', b, name), name)))
         # malformed stream: constants outside the range of their type
@@ -709,7 +709,7 @@ def run(ctx):
         hcases, hrecs = helper_cases(ctx, gen)
         ctx.cov['stages']['helper_cases'] = len(hcases)
         ctx.cov['distinct_nontrivial'] += sum(1 for (c, r) in hcases if r is not Internal)
-        bad = ctx.run_cases('helpers', ['Model.ConstFold'], hcases)
+        bad = ctx.run_cases('helpers', ['Gen.constfold', 'Gen.constfold_ops', 'Model.ConstFold'], hcases)
         if bad:
             for i in bad[:5]:
                 ctx.log('generated model/implementation disagree on', hrecs[i])
